@@ -35,6 +35,15 @@ class HarnessError(Exception):
     """A bug or limit in the simulator / a model.  Never a VIOLATION."""
 
 
+class AllParked(BaseException):
+    """Mode T: every thread (tasks and the main thread) has been parked for PARK_LIMIT_S of wall
+    time without a single scheduler step - the baton is lost.  Seen only with code under test that
+    keeps simulator primitives (a class-level Condition or Lock) alive from one run to the next."""
+
+
+PARK_LIMIT_S = 20.0
+
+
 class StepCap(BaseException):
     """A run used far more simulator steps than any legitimate run needs: the
     code under test polls or retries without ever giving up (livelock)."""
@@ -433,16 +442,29 @@ class Ctx:
             t.thread.start()
         self.tasks_running = True
         self._dispatch(None)
-        self.main_sem.acquire()         # parked until the run ends
+        # parked until the run ends (with a wall-clock guard against a lost baton)
+        idle, last = 0.0, -1
+        while not self.main_sem.acquire(timeout=2.0):
+            if self.steps != last:
+                idle, last = 0.0, self.steps
+            else:
+                idle += 2.0
+                if idle >= PARK_LIMIT_S:
+                    if self._end_reason is None:
+                        self._end_reason = AllParked()
+                    break
         self.tasks_running = False
         # unwind whatever is still parked
         self.aborting = True
         for t in self.tasks:
             if t.state != "done":
                 self.current = t
-                t.sem.release()
+                try:
+                    t.sem.release()
+                except RuntimeError:
+                    pass
             t.thread.join(10.0)
-            if t.thread.is_alive():
+            if t.thread.is_alive() and not isinstance(self._end_reason, AllParked):
                 raise HarnessError("task %s did not unwind" % t.name)
         self.current = None
         self.aborting = False
